@@ -19,7 +19,7 @@ META["C18"] = {
     "assumptions": ["documented rewrite: runs of blanks -> non-breaking blanks"],
 }
 
-LITS = ["'<b>bold</b>'", "\"a < b & c > d\"", "'it''s'", "\"say \"\"hi\"\"\"", "'a  b   c'", "'back\\slash'", "'\"0\"'", "\"'1'\"",
+LITS = ["'C:\\usr\\share\\ford'", "'\\frac{\\alpha}{\\beta}'", "'<b>bold</b>'", "\"a < b & c > d\"", "'it''s'", "\"say \"\"hi\"\"\"", "'a  b   c'", "'back\\slash'", "'\"0\"'", "\"'1'\"",
         "'&amp;'", "'*not emphasised*'", "'[[link]]'", "''", "' '", "'x = \"1\"'", "'!not a comment'", "'a;b'"]
 
 
@@ -36,7 +36,11 @@ DECLS = [
     ("character(len=*), parameter :: t = \"1\", s = {L}", 2),
     ("character(len=*), parameter :: t = '0' // \"1\", s = {L}", 2),
     ("CHARACTER(LEN=*), PARAMETER :: S = {L}", 1),
+    ("character(len=*), parameter :: s = {L} // '<i>'", 1, "{L}//'<i>'"),
+    ("character(len=*), parameter :: s(2) = [{L}, '<include>']", 1, "[{L}, '<include>']"),
+    ("character(len=*), parameter :: s(3) = [{L}, \"two\", {L}]", 1, "[{L}, \"two\", {L}]"),
 ]
+DECLS = [d if len(d) == 3 else (d[0], d[1], "{L}") for d in DECLS]
 
 
 def _initial_of(f):
@@ -70,7 +74,8 @@ def literal(ctx):
         d = CV.choice(E, "decl", DECLS)
         decl = choice.apply(lambda t, l: t.replace("{L}", l), d[0], lit)
         h.state = (decl, lit)
-        E.e.snapshot = lambda m: {"decl": choice.value_in_model(m, decl), "expected": rewrites(choice.value_in_model(m, lit))}
+        E.e.snapshot = lambda m: {"decl": choice.value_in_model(m, decl),
+                                  "expected": choice.value_in_model(m, d[2]).replace("{L}", rewrites(choice.value_in_model(m, lit)))}
         try:
             f = parserh.parse(["module m", decl, "end module m"])
         except (ValueError, IndexError, KeyError, AttributeError, TypeError) as e:
@@ -80,7 +85,7 @@ def literal(ctx):
         inits = _initial_of(f)
         E.reachable("parsed")
         E.require(choice.apply(lambda n, k: n == k, len(inits), d[1]), "number of declared entities differs")
-        want = choice.apply(rewrites, lit)
+        want = choice.apply(lambda l, t: t.replace("{L}", rewrites(l)), lit, d[2])
         h.want = want
         E.require(choice.apply(lambda g, w_: g == w_, inits[-1], want), "initial value differs from the source literal")
 
